@@ -54,7 +54,9 @@ def setup(case):
     if case["rhs"] == "velocity":
         d1 = (rng.normal(size=nj) + 1j * rng.normal(size=nj)) * 0.01
         series = statics.build_series(case, 2, disp=[d0, d0 + d1])
-        statics.make_forsys(series, times=[0.0, 1.0])
+        f_ = statics.make_forsys(series, times=[0.0, 1.0])
+        if f_.mesh.mapping[0] is None:
+            return None          # the generated frames are "too different" for the tracker: outside this property's inputs
     else:
         series = statics.build_series(case, 1, disp=[d0])
         series[0].frame = impl.make_frame(series[0].bm)
